@@ -285,49 +285,28 @@ engine): vertices `0, 1, 2, 3` of type `A` with `x = 1, 1, 2, 3`; edges `0 -e-> 
 `2 -e-> 3`, `0 -f-> 1`, no `g` edge; starting vertex `0`; arguments `one = 1`, `ones = [1]`. -/
 
 namespace Example
-def D : Data := Data.mk
-  [⟨0, "A", [("x", .int64 1)]⟩, ⟨1, "A", [("x", .int64 1)]⟩, ⟨2, "A", [("x", .int64 2)]⟩,
-    ⟨3, "A", [("x", .int64 3)]⟩]
-  [⟨0, "e", [], [1, 2]⟩, ⟨0, "f", [], [1]⟩, ⟨1, "e", [], [2]⟩, ⟨2, "e", [], [3]⟩] [⟨"R", [], [0]⟩] []
-  [("A", [])]
-def env : SpecEnv := ⟨D, [("one", .int64 1), ("ones", .list [.int64 1])], []⟩
-def out (nm o : Name) : QField := .prop nm [.output o]
-/-- `{ R { e @fold @transform(op: "count") @filter(op: "=", value: ["$one"]) { x @output(name: "o") } } }` -/
-def qFoldCount : Query := ⟨"R", [], .mk none
-  [.edge "e" [] (.fold [.countFilter (.bin .equals) (.var "one")]) (.mk none [out "x" "o"])]⟩
-/-- `{ R { g @optional { x @output(name: "o") } } }` -/
-def qOpt : Query := ⟨"R", [], .mk none [.edge "g" [] .optional (.mk none [out "x" "o"])]⟩
-/-- `{ R { g @optional { x @tag(name: "t") } f { x @output(name: "o") } } }` -/
-def qOptTag : Query := ⟨"R", [], .mk none
-  [.edge "g" [] .optional (.mk none [.prop "x" [.tag "t"]]), .edge "f" [] .plain (.mk none [out "x" "o"])]⟩
-/-- `{ R { e { x @output(name: "o") } } }` -/
-def qPlain : Query := ⟨"R", [], .mk none [.edge "e" [] .plain (.mk none [out "x" "o"])]⟩
-/-- `{ R { e @recurse(depth: 1) { x @output(name: "o") } } }` -/
-def qRec : Query := ⟨"R", [], .mk none [.edge "e" [] (.recurse 1) (.mk none [out "x" "o"])]⟩
-/-- `{ R { f @fold { e @recurse(depth: 1) { x @output(name: "o") } } } }` -/
-def qRecFold : Query := ⟨"R", [], .mk none
-  [.edge "f" [] (.fold []) (.mk none [.edge "e" [] (.recurse 1) (.mk none [out "x" "o"])])]⟩
+open SpecMeta.Example
 
-/-- Evaluate `Spec.rows` on a concrete query by unfolding. -/
-macro "spec_eval" : tactic => `(tactic|
-  simp (config := { decide := true }) [BEq.beq, rows, sizeBound, flatMapR, evalNode_succ, evalFields_edge, evalFields_nil, evalFields_prop,
-    evalEdge_fold, evalEdge_plain, evalEdge_optional, evalEdge_recurse, reachDecl, reach,
-    coercionOk, afterFilters, bindProps, propFiltersHold, filtersHold, ownersOf, edgeNbrs,
-    completeParams, declParams, Data.start, Data.nbrsOpt, Data.nbrs, paramsEq, Data.supers,
-    Data.typeOf, Data.vertex?, Data.propOpt, Data.prop, Data.isA, foldFinish, foldOk, foldMissing,
-    countOf, tagStep, missStep, lookupOut, List.filterMap_cons, outNames, outNamesFields, filterHolds,
-    Filter.applyStatic, Filter.applyTagged, Filter.equalsOp, Filter.notOp, Filter.oneOf,
-    Filter.oneOfLoop, Outcome.map, R.ofOutcome, Filter.equals, Value.disc, Value.beq, insertSorted,
-    Asg.tag?, addFilter, onQuery, modNode, modField, addFilterF, setRecurseDepth, setDepthF,
-    makeOptional, makeOptionalF, replaceEqByOneOf, modDirF, eqToOneOfD, onChild])
+/-! The world (`D`, `env`), the queries and the evaluations of `Spec.rows` on them (by unfolding) are in
+`Proofs/SpecMeta.lean` §7; the statements are repeated here.
+
+* `qFoldCount` = `{ R { e @fold @transform(op: "count") @filter(op: "=", value: ["$one"]) { x @output(name: "o") } } }`
+* `qOpt`       = `{ R { g @optional { x @output(name: "o") } } }`
+* `qOptTag`    = `{ R { g @optional { x @tag(name: "t") } f { x @output(name: "o") } } }`
+* `qPlain`     = `{ R { e { x @output(name: "o") } } }`
+* `qRec`       = `{ R { e @recurse(depth: 1) { x @output(name: "o") } } }`
+* `qRecFold`   = `{ R { f @fold { e @recurse(depth: 1) { x @output(name: "o") } } } }`
+* `qTwo`       = `{ R { e { x @output(name: "o1") } e { x @output(name: "o2") } } }`
+* `qParam`     = `{ R { h(k: 1) { x @output(name: "o") } } }` over `envp`, where `h(k: 1)` is `h(k: null)`
+  filtered by `x = 1` -/
 
 /-- Inside a fold a filter can even *add* a row: the count filter `= 1` fails on two elements and
 holds once the inner filter has removed one of them.  (`add_filter_sub` needs `NoFoldPath`.) -/
 theorem add_filter_in_fold_adds_row :
     rows env qFoldCount = .ok [] ∧
       rows env (addFilter [0] 0 1 (.bin .equals) (.var "one") qFoldCount) = .ok [[("o", .list [.int64 1])]] ∧
-      ¬ NoFoldPath [0] qFoldCount.root := by
-  refine ⟨?_, ?_, by decide⟩ <;> (simp only [env, D, qFoldCount, out]; spec_eval)
+      ¬ NoFoldPath [0] qFoldCount.root :=
+  SpecMeta.Example.add_filter_in_fold_adds_row
 
 /-- Inside a missing optional scope `f` and `¬f` both pass: the one row of `q` is a row of `q + f` and
 of `q + ¬f`.  (`filter_partition` needs `StrictPath`.) -/
@@ -335,8 +314,8 @@ theorem partition_fails_in_optional_scope :
     rows env qOpt = .ok [[("o", .null)]] ∧
       rows env (addFilter [0] 0 1 (.bin .equals) (.var "one") qOpt) = .ok [[("o", .null)]] ∧
       rows env (addFilter [0] 0 1 (.bin .notEquals) (.var "one") qOpt) = .ok [[("o", .null)]] ∧
-      NoFoldPath [0] qOpt.root ∧ ¬ StrictPath [0] qOpt.root := by
-  refine ⟨?_, ?_, ?_, by decide, by decide⟩ <;> (simp only [env, D, qOpt, out]; spec_eval)
+      NoFoldPath [0] qOpt.root ∧ ¬ StrictPath [0] qOpt.root :=
+  SpecMeta.Example.partition_fails_in_optional_scope
 
 /-- A tag from a missing optional scope makes `= %t` and `!= %t` both pass, even at a position that
 exists in every row.  (`filter_partition` needs an operand that is not a tag.) -/
@@ -344,24 +323,24 @@ theorem partition_fails_with_tag_from_optional_scope :
     rows env qOptTag = .ok [[("o", .int64 1)]] ∧
       rows env (addFilter [1] 0 1 (.bin .equals) (.tag "t") qOptTag) = .ok [[("o", .int64 1)]] ∧
       rows env (addFilter [1] 0 1 (.bin .notEquals) (.tag "t") qOptTag) = .ok [[("o", .int64 1)]] ∧
-      StrictPath [1] qOptTag.root := by
-  refine ⟨?_, ?_, ?_, by decide⟩ <;> (simp only [env, D, qOptTag, out]; spec_eval)
+      StrictPath [1] qOptTag.root :=
+  SpecMeta.Example.partition_fails_with_tag_from_optional_scope
 
 /-- Below a fold, raising a recursion depth changes the folded list, so the old row is gone.
 (`recurse_mono` needs `NoFoldPath`.) -/
 theorem recurse_in_fold_changes_row :
     rows env qRecFold = .ok [[("o", .list [.int64 1, .int64 2])]] ∧
       rows env (setRecurseDepth [0] 0 2 qRecFold) = .ok [[("o", .list [.int64 1, .int64 2, .int64 3])]] ∧
-      ¬ NoFoldPath [0] qRecFold.root := by
-  refine ⟨?_, ?_, by decide⟩ <;> (simp only [env, D, qRecFold, out]; spec_eval)
+      ¬ NoFoldPath [0] qRecFold.root :=
+  SpecMeta.Example.recurse_in_fold_changes_row
 
 /-- Non-vacuity of `add_filter_sub` / `filter_partition`: a strict partition of two rows. -/
 theorem partition_example :
     rows env qPlain = .ok [[("o", .int64 1)], [("o", .int64 2)]] ∧
       rows env (addFilter [0] 0 0 (.bin .equals) (.var "one") qPlain) = .ok [[("o", .int64 1)]] ∧
       rows env (addFilter [0] 0 0 (.bin .notEquals) (.var "one") qPlain) = .ok [[("o", .int64 2)]] ∧
-      StrictPath [0] qPlain.root ∧ fieldAt [0] 0 qPlain.root = some (out "x" "o") := by
-  refine ⟨?_, ?_, ?_, by decide, rfl⟩ <;> (simp only [env, D, qPlain, out]; spec_eval)
+      StrictPath [0] qPlain.root ∧ fieldAt [0] 0 qPlain.root = some (out "x" "o") :=
+  SpecMeta.Example.partition_example
 
 example : Interleave [[("o", Value.int64 1)]] [[("o", Value.int64 2)]]
     [[("o", Value.int64 1)], [("o", Value.int64 2)]] :=
@@ -373,26 +352,21 @@ theorem recurse_example :
     rows env qRec = .ok [[("o", .int64 1)], [("o", .int64 1)], [("o", .int64 2)]] ∧
       rows env (setRecurseDepth [] 0 2 qRec) =
         .ok [[("o", .int64 1)], [("o", .int64 1)], [("o", .int64 2)], [("o", .int64 2)], [("o", .int64 3)]] ∧
-      kindAt [] 0 qRec.root = some (.recurse 1) := by
-  refine ⟨?_, ?_, rfl⟩ <;> (simp only [env, D, qRec, out]; spec_eval)
+      kindAt [] 0 qRec.root = some (.recurse 1) :=
+  SpecMeta.Example.recurse_example
 
 /-- Non-vacuity of `optional_keeps` (here nothing is added: vertex 0 has `e`-neighbours). -/
 theorem optional_example :
-    rows env (makeOptional [] 0 qPlain) = .ok [[("o", .int64 1)], [("o", .int64 2)]] := by
-  simp only [env, D, qPlain, out]; spec_eval
+    rows env (makeOptional [] 0 qPlain) = .ok [[("o", .int64 1)], [("o", .int64 2)]] :=
+  SpecMeta.Example.optional_example
 
 /-- Non-vacuity of `eq_oneof_singleton`. -/
 theorem eq_oneof_example :
     dirAt [0] 0 0 (addFilter [0] 0 0 (.bin .equals) (.var "one") qPlain).root =
         some (.filter (.bin .equals) (.var "one")) ∧
       rows env (replaceEqByOneOf [0] 0 0 "ones" (addFilter [0] 0 0 (.bin .equals) (.var "one") qPlain)) =
-        .ok [[("o", .int64 1)]] := by
-  refine ⟨rfl, ?_⟩
-  simp only [env, D, qPlain, out]; spec_eval
-
-/-- `{ R { e { x @output(name: "o1") } e { x @output(name: "o2") } } }` -/
-def qTwo : Query := ⟨"R", [], .mk none
-  [.edge "e" [] .plain (.mk none [out "x" "o1"]), .edge "e" [] .plain (.mk none [out "x" "o2"])]⟩
+        .ok [[("o", .int64 1)]] :=
+  SpecMeta.Example.eq_oneof_example
 
 /-- Non-vacuity of `reorder_siblings_edges`: two independent edges; the swap exchanges the two middle
 rows. -/
@@ -403,41 +377,17 @@ theorem swap_edges_example :
       [("o1", .int64 2), ("o2", .int64 1)], [("o1", .int64 1), ("o2", .int64 2)],
       [("o1", .int64 2), ("o2", .int64 2)]] ∧
     swapEdgesOK (.edge "e" [] .plain (.mk none [out "x" "o1"]))
-      (.edge "e" [] .plain (.mk none [out "x" "o2"])) = true := by
-  refine ⟨?_, ?_, by decide⟩ <;>
-    (simp only [env, D, qTwo, out, swapSiblings, onQuery, modNode, swapAtF, swapAdj]; spec_eval)
+      (.edge "e" [] .plain (.mk none [out "x" "o2"])) = true :=
+  SpecMeta.Example.swap_edges_example
 
-/-- A dataset in which the edge `h(k: 1)` *is* the edge `h(k: null)` filtered by `x = 1`. -/
-def Dp : Data := Data.mk
-  [⟨0, "A", [("x", .int64 1)]⟩, ⟨1, "A", [("x", .int64 1)]⟩, ⟨2, "A", [("x", .int64 2)]⟩]
-  [⟨0, "h", [("k", .int64 1)], [1]⟩, ⟨0, "h", [("k", .null)], [1, 2]⟩] [⟨"R", [], [0]⟩] [] [("A", [])]
-def envp : SpecEnv := ⟨Dp, [("one", .int64 1)], [⟨"A", "h", [("k", none)]⟩]⟩
-/-- `{ R { h(k: 1) { x @output(name: "o") } } }` -/
-def qParam : Query := ⟨"R", [], .mk none [.edge "h" [("k", .int64 1)] .plain (.mk none [out "x" "o"])]⟩
-def keep (n : VertexId) : Bool := Filter.equals (Dp.prop n "x") (.int64 1)
-
-theorem param_example_data (x : VertexId) :
-    let owners := envp.data.supers (envp.data.typeOf x)
-    envp.data.nbrs x "h" (completeParams (declParams envp owners "h") [("k", .int64 1)]) =
-      (envp.data.nbrs x "h" (completeParams (declParams envp owners "h") [("k", .null)])).filter keep := by
-  by_cases h0 : x = 0
-  · subst h0; decide
-  · have hx : (0 == x) = false := by simp [Ne.symm h0]
-    simp [envp, Dp, Data.nbrs, List.find?, hx]
-
-theorem param_example_filter (n : VertexId) (a : Asg) :
-    filterHolds envp a (some n) (envp.data.prop n "x") (.bin .equals) (.var "one") = .ok (keep n) := by
-  simp [filterHolds, envp, keep, Filter.applyStatic, Filter.equalsOp, R.ofOutcome]
-
-/-- Non-vacuity of `param_edge_as_filter`: the hypotheses hold of `envp`, both queries evaluate, and the
-theorem gives the equality of their rows (here `[{o: 1}]`: vertex 2 is excluded on both sides). -/
+/-- Non-vacuity of `param_edge_as_filter`: the hypotheses hold of `envp` (`param_example_data`,
+`param_example_filter`), both queries evaluate, and the theorem gives the equality of their rows (here
+`[{o: 1}]`: vertex 2 is excluded on both sides). -/
 theorem param_example :
     rows envp qParam = .ok [[("o", .int64 1)]] ∧
       rows envp (paramEdgeToFilter [] 0 "h" [("k", .null)] "x" (.bin .equals) (.var "one") qParam) =
-        .ok [[("o", .int64 1)]] := by
-  constructor <;>
-    (simp only [envp, Dp, qParam, out, paramEdgeToFilter, onQuery, modNode, modField,
-      List.modify_zero_cons, paramToFilterF, prependFilterProp]; spec_eval)
+        .ok [[("o", .int64 1)]] :=
+  SpecMeta.Example.param_example
 
 example : ([[("o", Value.int64 1)]] : List Row) = [[("o", Value.int64 1)]] :=
   param_edge_as_filter envp qParam [] 0 "h" "h" [("k", .int64 1)] [("k", .null)] "x" (.bin .equals)
